@@ -1027,4 +1027,15 @@ def arr_method(ex, v, meth, args, kw, st):
         raise Unsupported('astype')
     if meth == 'sum':
         return np_sum(ex, [v], kw, st)
+    if meth == 'swapaxes':
+        a, b = concrete(args[0]), concrete(args[1])
+        if not isinstance(v, SArr) or v.ndim != 2 or a is None or b is None:
+            raise Unsupported('swapaxes of this value')
+        if a % 2 == b % 2:
+            return v                       # swapping an axis with itself: the same view
+        from .symexec import SwapStore, view_of
+        if v.store is None or any(not k for k in v.keep) \
+                or any(concrete(o) != 0 for o in v.off):
+            raise Unsupported('swapaxes of a partial view')
+        return view_of(SwapStore(v.store))
     raise Unsupported(f'array method {meth}')
